@@ -21,7 +21,10 @@ pub const NEUTRAL: [&str; 8] = [
     "alter-unsigned-header",
     "duplicate-unsigned-header",
 ];
-pub const BINDING: [&str; 8] = [
+pub const BINDING: [&str; 11] = [
+    "append-tab",
+    "prepend-tab",
+    "tab-between-edge-spaces",
     "signed-value-byte",
     "swap-values",
     "drop-value",
@@ -151,6 +154,23 @@ fn child(kind: &str, r: &mut Rng, parent: &Case, signed: &[String]) -> Option<Ca
                 };
             }
             h[i].1[p] = n;
+        }
+        "append-tab" | "prepend-tab" | "tab-between-edge-spaces" => {
+            if signed_extra.is_empty() {
+                return None;
+            }
+            let i = *r.pick(&signed_extra);
+            match kind {
+                "append-tab" => h[i].1.push(b'\t'),
+                "prepend-tab" => h[i].1.insert(0, b'\t'),
+                _ => {
+                    // " \t value \t ": the TAB is not at the very edge of the wire value
+                    let mut v = b" \t ".to_vec();
+                    v.extend_from_slice(&h[i].1);
+                    v.extend_from_slice(b" \t ");
+                    h[i].1 = v;
+                }
+            }
         }
         "append-to-value" => {
             if signed_extra.is_empty() {
